@@ -216,7 +216,8 @@ SRC_TIE_TEXT = {
     'Codec': 'the dedicated encoders/decoders of encode.py/decode.py, their dispatch tables and the range checks of checks.py',
     'Tok': 'the Tokenizer state machine of tokenizer.py (_feed_status_byte, _feed_data_byte, feed_byte, feed)',
     'Meta': 'check_int and the encode/decode/check methods of the numeric meta specs of meta.py',
-    'Vlq': 'encode_variable_int (meta.py) and read_variable_int (midifiles.py)',
+    'Vlq': 'encode_variable_int and decode_variable_int (meta.py)',
+    'VlqRead': 'read_variable_int (midifiles.py)',
     'Tracks': '_to_abstime, _to_reltime, fix_end_of_track and merge_tracks of tracks.py',
     'Reader': 'MidiFile._load, read_file_header, read_track, read_message, read_sysex, read_meta_message, read_bytes, read_chunk_header and read_variable_int of midifiles.py (the message constructors they call are a parameter, instantiated with the model of those constructors)',
     'Writer': 'MidiFile.save/_save, write_track and write_chunk of midifiles.py (type-0 rule, header, both loops, running status, chunk header)',
@@ -224,7 +225,7 @@ SRC_TIE_TEXT = {
 SRC_TIE = {
     'C01': ['Codec'], 'C02': ['Codec'], 'C03': ['Codec'],
     'C04': ['Tok'], 'C05': ['Tok'], 'C06': ['Tok'], 'C18': ['Tok'], 'C19': ['Tok'],
-    'C07': ['Vlq', 'Tracks', 'Writer', 'Reader'], 'C08': ['Vlq', 'Writer', 'Reader'], 'C09': ['Meta', 'Vlq'], 'C12': ['Tracks'], 'C16': ['Tracks'],
+    'C07': ['Vlq', 'VlqRead', 'Tracks', 'Writer', 'Reader'], 'C08': ['Vlq', 'VlqRead', 'Writer', 'Reader'], 'C09': ['Meta', 'Vlq'], 'C12': ['Tracks'], 'C16': ['Tracks'],
 }
 
 
